@@ -638,11 +638,20 @@ func run(p Prog) *prog.Result {
 		}
 		firstDutySeen = true
 		if err == nil {
-			if stale && preRole && floor == 0 {
-				// FirstHeight special case, documented in ShouldProcessDuty ("&& Height != 0"): at controller height 0 the
-				// pre-consensus phase of a slot-0 duty is accepted again; consensus for it is still refused (precons op)
-				cls("obs:slot-0-duty-accepted-at-height-0")
-			} else if stale {
+			if stale && slot == 0 {
+				// ShouldProcessDuty's documented genesis exemption (Height != 0): a duty for slot 0 is let through even when
+				// height 0 is known (for the roles with a pre-consensus phase nothing else stands in the way of StartNewDuty;
+				// the start of consensus for it is still judged, see precons). Slot 0 lies years in the past for every real
+				// network; counted, not judged.
+				cls("obs:slot-0-duty-accepted-under-genesis-exemption")
+				if preRole {
+					ownPre = e.ownPreConsensus()
+				} else {
+					raise(slot)
+				}
+				return judgeStore(step, "duty", -1)
+			}
+			if stale {
 				sig := "C15:duty-started-at-or-below-floor"
 				if restarted && slot <= restoredHeight {
 					sig = "C15:duty-rerun-after-restart"
